@@ -6,6 +6,7 @@
 
 mod gen;
 mod interp;
+mod sio;
 mod util;
 
 use std::io::{BufRead, Write};
